@@ -43,6 +43,10 @@ type endpoint struct {
 	handler raftio.MessageHandler
 	chunks  raftio.ChunkHandler
 	up      bool
+	// gate: handlers are called with the read lock held, Close takes the write
+	// lock, so that no handler runs once the receiving transport is closed (a
+	// real transport waits for its connection goroutines)
+	gate sync.RWMutex
 }
 
 // NewNet creates a network.
@@ -177,10 +181,15 @@ func (t *transport) Close() error {
 	t.once.Do(func() {
 		close(t.stopc)
 		t.net.mu.Lock()
-		if ep, ok := t.net.endpoints[t.addr]; ok && ep.handler != nil {
-			ep.up = false
-		}
+		ep, ok := t.net.endpoints[t.addr]
 		t.net.mu.Unlock()
+		if ok {
+			ep.gate.Lock()
+			t.net.mu.Lock()
+			ep.up = false
+			t.net.mu.Unlock()
+			ep.gate.Unlock()
+		}
 	})
 	t.wg.Wait()
 	return nil
@@ -286,8 +295,15 @@ func (c *conn) run() {
 		}
 		n.mu.Lock()
 		ep, ok := n.endpoints[c.to]
+		n.mu.Unlock()
+		if !ok {
+			return
+		}
+		ep.gate.RLock()
+		defer ep.gate.RUnlock()
+		n.mu.Lock()
 		var h raftio.MessageHandler
-		if ok && ep.up {
+		if ep.up {
 			h = ep.handler
 		}
 		n.mu.Unlock()
@@ -370,11 +386,18 @@ func (c *ssConn) SendChunk(chunk pb.Chunk) error {
 	}
 	n.mu.Lock()
 	ep, ok := n.endpoints[c.to]
+	n.stats.Chunks++
+	n.mu.Unlock()
+	if !ok {
+		return errConn
+	}
+	ep.gate.RLock()
+	defer ep.gate.RUnlock()
+	n.mu.Lock()
 	var h raftio.ChunkHandler
-	if ok && ep.up {
+	if ep.up {
 		h = ep.chunks
 	}
-	n.stats.Chunks++
 	n.mu.Unlock()
 	if h == nil {
 		return errConn
